@@ -119,6 +119,12 @@ func runSer1(c *core.Ctx) {
 			}
 		}
 	})
+	// integers are written in base 10
+	for _, call := range callsNamed(ser, "strconv.AppendInt") {
+		if k, ok := an.ConstInt(call.Call.Args[2]); !ok || k != 10 {
+			okOrder = false
+		}
+	}
 	c.Check(okOrder && prefix, nil, fname(c, ser), "tuple", P.Pos(ser.Pos()),
 		"writes \"[0,\" then Pubkey, CreatedAt, Kind, Tags, Content in that order on every path",
 		fmt.Sprintf("field write order ok=%v, constant prefix \"[0,\" first=%v: the hashed bytes are not the NIP-01 tuple", okOrder, prefix))
